@@ -65,6 +65,10 @@ def gen_probe_project(rng, binp, tries=40, opts=None):
                                                    proj.A([f"[{l}] full", proj.F("100.0")]), proj.A([f"[{l}] out of range"])])])
                 tree["o"].append(["ovf32", proj.A(["f32", proj.A([f"[{l}] low", "..2.5"]), proj.A([f"[{l}] one", "1.0", "2.5"]), proj.A([f"[{l}] rest {{{{ count }}}}"])])])
                 tree["o"].append(["ovi32", proj.A(["i32", proj.A([f"[{l}] few", "0..10"]), proj.A([f"[{l}] five", proj.U(5), proj.U(10)]), proj.A([f"[{l}] rest"])])])
+                # more than 16 alternatives (nested `EitherOf` wrappers in the view back-end), the last ones of different shapes
+                words = ["zero", "one", "two", "three", "four", "five", "six", "seven", "eight", "nine", "ten", "eleven", "twelve", "thirteen", "fourteen", "fifteen", "sixteen"]
+                tree["o"].append(["ov18", proj.A(["u8"] + [proj.A([f"[{l}] {w}" if k != 16 else f"<b>[{l}] {w}</b>", proj.U(k)]) for k, w in enumerate(words)]
+                                                + [proj.A([f"[{l}] {{{{ count }}}}"])])])
         if o.get("ordinal_key", True):
             # an ordinal and a cardinal plural with every form, in every locale (string and view back-ends must use the key's rule type)
             for (ns, l), tree in p["files"].items():
@@ -110,6 +114,23 @@ TYPE_LIMITS = {"i8": (-128, 127), "u8": (0, 255), "i16": (-2 ** 15, 2 ** 15 - 1)
                "u32": (0, 2 ** 32 - 1), "i64": (-2 ** 63, 2 ** 63 - 1), "u64": (0, 2 ** 64 - 1)}
 
 
+def dec_text(q):
+    """plain decimal text of a fraction whose denominator is a power of ten times a power of two (no exponent)"""
+    from fractions import Fraction
+    q = Fraction(q)
+    sign = "-" if q < 0 else ""
+    q = abs(q)
+    ip = q.numerator // q.denominator
+    fp = q - ip
+    digits = ""
+    while fp != 0 and len(digits) < 40:
+        fp *= 10
+        d = fp.numerator // fp.denominator
+        digits += str(d)
+        fp -= d
+    return "%s%d.%s" % (sign, ip, digits or "0")
+
+
 def boundary_counts(v, count_key, ty):
     """Rust literals of type `ty` on and next to every bound written in the ranges of `v` that count `count_key`"""
     from fractions import Fraction
@@ -152,12 +173,17 @@ def boundary_counts(v, count_key, ty):
     for b in bounds:
         if Fraction(b) not in uniq:
             uniq.append(Fraction(b))
-    for deltas in ((0,), (Fraction(1, 2), -Fraction(1, 2)) if ty in ("f32", "f64") else (1, -1)):
+    # floats: also the closest neighbours one would still write by hand (an equality must not be an "almost equal")
+    tiny = {"f32": Fraction(1, 10 ** 7), "f64": Fraction(1, 10 ** 16)}.get(ty)
+    for deltas in ((0,), (tiny, -tiny) if tiny else (), (Fraction(1, 2), -Fraction(1, 2)) if ty in ("f32", "f64") else (1, -1)):
         for q in uniq:
             for d in deltas:
                 w = q + d
                 if ty in ("f32", "f64"):
-                    if w.denominator in (1, 2, 4, 8) and abs(w) < 10 ** 6:
+                    if d in (tiny, -tiny) if tiny else False:
+                        if abs(q) <= 1:                      # near 0, 0.25, 0.5, 1: the neighbour is a different float of the type
+                            out.append(dec_text(w) + ty)
+                    elif w.denominator in (1, 2, 4, 8) and abs(w) < 10 ** 6:
                         out.append(("%s%s" % (float(w), ty)).replace("-0.0f", "0.0f"))
                 elif w.denominator == 1:
                     lo, hi = TYPE_LIMITS[ty]
@@ -176,7 +202,16 @@ def count_display(lit):
     v = count_value(lit)
     if v.denominator == 1:
         return str(v.numerator)
-    return str(float(v))
+    if lit.endswith("f32"):
+        import struct
+        f = struct.unpack("f", struct.pack("f", float(v)))[0]
+        # shortest decimal text that reads back as the same f32 (what Rust's Display prints)
+        for n in range(1, 12):
+            t = "%.*g" % (n, f)
+            if struct.unpack("f", struct.pack("f", float(t)))[0] == f:
+                return dec_text(__import__("fractions").Fraction(t)) if "e" in t else t
+    r = repr(float(v))
+    return dec_text(__import__("fractions").Fraction(r)) if "e" in r else r
 
 
 NUMS = [("7.0f64", "7"), ("2000.5f64", "2000.5"), ("-12345.25f64", "-12345.25")]
@@ -223,6 +258,9 @@ def build_probes(rng, p, res, oracle, per_key=3, flavours=("string", "display", 
                         for name, info in val["interpol"]["vars"]:
                             short = name[len("var_"):]
                             if info["count"] is not None:
+                                if {f["f"] for f in info["fmts"]} - {"none", "number", "currency"}:
+                                    ok = False       # a count that is also formatted as a date / time / list: no value has both types
+                                    continue
                                 lit = rng.pick(COUNTS[info["count"]])
                                 if info["count"] != "plural" and rng.chance(3, 4):
                                     # a count on / next to a bound of one of the key's range branches (in the locale rendered); the
